@@ -318,7 +318,8 @@ class Gen:
             return "none", None
         if c == 3 and allow_pct and n > 0:
             # percentages on which binary64 and exact arithmetic agree (see DESIGN C04)
-            cands = [p for p in [0, 1, 10, 25, 33, 50, 51, 66, 75, 99, 100, 101, 150, 200] if pct_exact(p, n)]
+            # (n itself: a percentage equal to the size of the set is still a percentage)
+            cands = [p for p in [0, 1, 2, 3, 4, 5, n, n, n, 10, 25, 33, 50, 51, 66, 75, 99, 100, 101, 150, 200] if pct_exact(p, n)]
             return "pct", ("int", r.choice(cands))
         if c == 4:
             return "expr", self.gint(min(d, 1), in_for, nid)
